@@ -5,6 +5,8 @@
 export PATH=/opt/veriftools/go1.26.8/bin:$PATH GOTOOLCHAIN=local GOFLAGS=-mod=mod GOPROXY=off GOSUMDB=off GOWORK=off
 BIN=${1:-/verif/bin/pikocheck}
 WT=${WT:-/tmp/fpwt}
+CREATED=0
+if [ ! -d "$WT" ]; then git -C /repo worktree add -q --detach "$WT" HEAD && CREATED=1; fi
 miss=0; n=0
 for d in /verif/seeded/C*; do
   id=$(basename $d); prop=${id%%-*}
@@ -18,3 +20,4 @@ for d in /verif/seeded/C*; do
 done
 git -C $WT checkout -q -- . ; git -C $WT clean -fdq
 echo "seedprobe: $n seeded changes, $miss not detected"
+if [ "$CREATED" = 1 ]; then git -C /repo worktree remove --force "$WT"; fi
